@@ -6,7 +6,7 @@ inductive Mode where
   | idle
   | vec (portable tracked : Bool) (s : St)
   | faulted
-  | flat (m : FMap) (s : FSet)
+  | flat (ltM ltS : Int → Int → Bool) (m : FMap) (s : FSet)   -- comparator of the map, of the set
 
 def showVec (v : Vec) : String :=
   let body :=
@@ -87,28 +87,74 @@ def pairs : List Int → List (Int × Int)
   | a :: b :: r => (a, b) :: pairs r
   | _ => []
 
-def flatStep (m : FMap) (s : FSet) (ws : List String) : Option (FMap × FSet × String) :=
-  match ws with
-  | ["mset", k, v] => do pure (m.assign (← int? k) (← int? v), s, "-")
-  | ["mget", k] => do let (m, v) := m.index (← int? k); pure (m, s, toString v)
-  | ["mins", k, v] => do let (m, a, b) := m.insert (← int? k) (← int? v); pure (m, s, s!"{a}>{b}")
-  | ["mempl", k, v] => do
-      let (m, b, w) := m.emplace (← int? k) (← int? v)
-      pure (m, s, s!"{if b then 1 else 0},{w}")
-  | ["mfind", k] => do pure (m, s, match m.find (← int? k) with | some v => toString v | none => "end")
-  | ["mcount", k] => do pure (m, s, toString (m.count (← int? k)))
-  | ["mat", k] => do pure (m, s, match m.find (← int? k) with | some v => toString v | none => "throw")
-  | ["mclear"] => some (⟨[]⟩, s, "-")
-  | "minit" :: xs => do let l ← ints? xs; pure (FMap.ofList ((pairs l).take 4) ⟨[]⟩, s, "-")
-  | ["mcopy"] => some (m, s, "10")
-  | ["sins", k] => do pure (m, s.insert (← int? k), "-")
-  | ["scount", k] => do pure (m, s, toString (s.count (← int? k)))
-  | ["sclear"] => some (m, ⟨[]⟩, "-")
+def showMRet : MRet → String
+  | .unit => "-"
+  | .val v => toString v
+  | .kv k v => s!"{k}>{v}"
+  | .flag b w => s!"{if b then 1 else 0},{w}"
+  | .opt (some v) => toString v
+  | .opt none => "end"
+  | .nat n => toString n
+  | .throw => "throw"
+
+def showSRet : SRet → String
+  | .unit => "-"
+  | .nat n => toString n
+  | .keys l => if l.isEmpty then "-" else ",".intercalate (l.map toString)
+
+/-- the flat_map operation language of the model (`MOp`, what `flat_map_refines` quantifies over) -/
+def parseMOp : List String → Option MOp
+  | ["mset", k, v] => do pure (.assign (← int? k) (← int? v))
+  | ["mget", k] => do pure (.index (← int? k))
+  | ["mins", k, v] => do pure (.insert (← int? k) (← int? v))
+  | ["mempl", k, v] => do pure (.emplace (← int? k) (← int? v))
+  | ["mfind", k] => do pure (.find (← int? k))
+  | ["mcount", k] => do pure (.count (← int? k))
+  | ["mat", k] => do pure (.at (← int? k))
+  | ["msize"] => some .size
+  | ["mclear"] => some .clear
+  | "minit" :: xs => do let l ← ints? xs; pure (.init ((pairs l).take 4))
   | _ => none
+
+/-- the flat_set operation language (`SOp`, what `flat_set_refines` quantifies over) -/
+def parseSOp : List String → Option SOp
+  | ["sins", k] => do pure (.insert (← int? k))
+  | ["scount", k] => do pure (.count (← int? k))
+  | ["ssize"] => some .size
+  | ["sclear"] => some .clear
+  | ["siter"] => some .iter
+  | _ => none
+
+/-- the comparators the harness instantiates (`Compare` of flat_map / flat_set, handed to the model as `lt`) -/
+def cmpOf : String → Option ((Int → Int → Bool) × (Int → Int → Bool))
+  | "less" => some (ltInt, ltInt)                                   -- std::less<int>
+  | "greater" => some (fun a b => decide (b < a), fun a b => decide (b < a))   -- std::greater<int>
+  | "lastdigit" =>                                                   -- a % 10 < b % 10 (C++ truncating %)
+    some (fun a b => decide (a.tmod 10 < b.tmod 10), fun a b => decide (a.tmod 10 < b.tmod 10))
+  | "sgreater" =>                                                    -- std::greater<std::string> on std::to_string
+    some (fun a b => decide (toString b < toString a), fun a b => decide (toString b < toString a))
+  -- a stateful comparator type `Dir`: the set is built from the object Dir(true) (descending), the map has no
+  -- such constructor and uses the default-constructed Dir (ascending)
+  | "dirdesc" => some (ltInt, fun a b => decide (b < a))
+  | _ => none
+
+def flatStep (ltM ltS : Int → Int → Bool) (m : FMap) (s : FSet) (ws : List String) : Option (FMap × FSet × String) :=
+  match parseMOp ws with
+  | some op => let (m', r) := m.step ltM op; some (m', s, showMRet r)
+  | none =>
+    match parseSOp ws with
+    | some op => let (s', r) := s.step ltS op; some (m, s', showSRet r)
+    | none =>
+      -- copy construction / copy assignment / move of the whole map (defaulted members): the map is unchanged
+      if ws = ["mcopy"] then some (m, s, "10") else none
 
 def stepLine (st : Mode) (line : String) : Mode × String :=
   match words line with
-  | ["reset", "flat", _] => (.flat {} {}, "ok")
+  | ["reset", "flat", _] => (.flat ltInt ltInt {} {}, "ok")
+  | ["reset", "flat", _, c] =>
+    match cmpOf c with
+    | some (ltM, ltS) => (.flat ltM ltS {} {}, "ok")
+    | none => (.idle, "bad-op")
   | ["reset", ty, var] =>
     if (ty = "int" ∨ ty = "trk") ∧ (var = "v" ∨ var = "p") then
       (.vec (var = "p") (ty = "trk") St.init, "ok")
@@ -117,9 +163,9 @@ def stepLine (st : Mode) (line : String) : Mode × String :=
     match st with
     | .idle => (st, "bad-op")
     | .faulted => (st, "fault")
-    | .flat m s =>
-      match flatStep m s ws with
-      | some (m, s, r) => (.flat m s, r ++ flatDump m s)
+    | .flat ltM ltS m s =>
+      match flatStep ltM ltS m s ws with
+      | some (m, s, r) => (.flat ltM ltS m s, r ++ flatDump m s)
       | none => (st, "bad-op")
     | .vec p t s =>
       if ws = ["end"] then
